@@ -307,13 +307,31 @@ func TestVerif_C16(t *testing.T) {
 		defer w.Remove()
 		w.Apply(mkX)
 		w.Apply(mkG)
+		w.Apply(mkR)
+		// one handle per element type of the kit (every write path, incl. variable-length data
+		// through the global heap), created and written once before the writer is closed
+		var typeNames []string
+		for tn := range vfTypes {
+			typeNames = append(typeNames, tn)
+		}
+		sort.Strings(typeNames)
+		late := []vfOp{{Op: "mkds", Path: "/late", Type: "i32", Dims: []uint64{2}}, {Op: "mkgroup", Path: "/lateg"}, {Op: "write", Path: "/x", Pat: 1},
+			{Op: "attr", Path: "/x", Name: "late", Value: "i32a"}, {Op: "attr", Path: "/g", Name: "late", Value: "i32a"}, {Op: "hardlink", Path: "/latel", Target: "/x"}, {Op: "delattr", Path: "/x", Name: "a"},
+			{Op: "write", Path: "/r", Pat: 2}, {Op: "resize", Path: "/r", Dims: []uint64{6}}, {Op: "softlink", Path: "/lates", Target: "/x"}, {Op: "extlink", Path: "/latee", Target: "/obj"}}
+		for _, tn := range typeNames {
+			p := "/t_" + tn
+			if e, _ := w.Apply(vfOp{Op: "mkds", Path: p, Type: tn, Dims: []uint64{2}}); e != nil {
+				continue
+			}
+			w.Apply(vfOp{Op: "write", Path: p, Pat: 1})
+			late = append(late, vfOp{Op: "write", Path: p, Pat: 2}, vfOp{Op: "attr", Path: p, Name: "late", Value: "i32a"})
+		}
 		for k := 0; k < 3; k++ {
 			if err := w.FW.Close(); err != nil {
 				r.Fail("close-repeated/returns-error", map[string]any{"call": k + 1, "error": err.Error()})
 			}
 		}
-		for _, o := range []vfOp{{Op: "mkds", Path: "/late", Type: "i32", Dims: []uint64{2}}, {Op: "mkgroup", Path: "/lateg"}, {Op: "write", Path: "/x", Pat: 1},
-			{Op: "attr", Path: "/x", Name: "late", Value: "i32a"}, {Op: "attr", Path: "/g", Name: "late", Value: "i32a"}, {Op: "hardlink", Path: "/latel", Target: "/x"}, {Op: "delattr", Path: "/x", Name: "a"}} {
+		for _, o := range late {
 			r.Case("closed-writer/" + o.String())
 			err, pan := w.Apply(o)
 			if pan {
